@@ -144,6 +144,11 @@ class LenFacts:
         return ex is not None and ex == ({}, n)
 
 
+def _is_generator(fi) -> bool:
+    from .sym import _has_yield
+    return _has_yield(fi)
+
+
 def _membership_known(s, base, idx) -> bool:
     from .util import implied_atoms
     b, i = strip_sites(base), strip_sites(idx)
@@ -188,7 +193,12 @@ class EscapePolicy(InlineOnly):
             base, idx = ev.target[1], ev.target[2]
             kind = o.container_kind(base, eng)
             if kind == "bytes":
-                if is_const(idx) and isinstance(idx[1], int) and idx[1] >= 0 and LenFacts(eng, s.conds).at_least(base, idx[1] + 1):
+                lf = LenFacts(eng, s.conds)
+                if is_const(idx) and isinstance(idx[1], int) and idx[1] >= 0 and lf.at_least(base, idx[1] + 1):
+                    return []
+                # symbolic index i (a byte / unpacked unsigned value): in range when 0 <= i and len(base) >= i + 1 is a path fact
+                il = layout.linear(strip_sites(lf._norm(idx))) if not is_const(idx) else None
+                if il is not None and lf._ge0(il) and any(lf._ge0(lf._sub(lb, (il[0], il[1] + 1))) for lb in lf.lower(base)):
                     return []
                 o.note_site("IndexError", ev)
                 return ["IndexError"]
@@ -257,12 +267,26 @@ class EscapePolicy(InlineOnly):
         if f is not None and f[0] == "classconst" and len(ev.args) == 1:
             # cls._address_type(addr_b): address class of the option family applied to an 's' field
             return []
+        if ev.ext in ("tuple", "list", "set", "frozenset", "sorted", "sum", "min", "max", "any", "all", "next", "dict") and ev.args:
+            # an eager consumer drives a generator object: the generator body's exceptions surface here
+            out = set()
+            for a in ev.args:
+                if a[0] == "call" and a[1][0] in ("bound", "func"):
+                    g = self.oracle.prog.functions.get(a[1][-1])
+                    if g is not None and _is_generator(g):
+                        out |= set(o.callee_escapes(g, a[1][1] if a[1][0] == "bound" else None, ev, eng))
+            if ev.ext == "next" and len(ev.args) == 1:
+                out.add("StopIteration")
+            if out:
+                return sorted(out)
         if ev.targets:
             callee = ev.targets[0]
             if eng.is_listener_iface(callee.qual):
                 return []  # user supplied listener code: attributed to the user
             if ev.coro:
                 return []
+            if _is_generator(callee):
+                return []  # calling a generator function runs none of its body: that happens where it is iterated
             recv_t = ev.recv if (f is not None and f[0] == "bound") else None
             if f is not None and f[0] == "cls":
                 recv_t = ev.result
